@@ -186,11 +186,15 @@ class Grid(DiscreteSpace[T], Generic[T], HasPropertyLayers):
         self.__dict__ = state
         self._connect_cells()  # using super fails for this for some reason, so we repeat ourselves
 
-        self.cell_klass = type(
-            self._cells[(0, 0)]
-        )  # the __reduce__ function handles this for us nicely
+        # all cells of a grid share one dynamically created class that carries the grid's
+        # property descriptors; the cells come back from unpickle_gridcell with a class each
+        self.cell_klass = type(next(iter(self._cells.values())))
+        copyreg.pickle(self.cell_klass, pickle_gridcell)
+        for cell in self._cells.values():
+            cell.__class__ = self.cell_klass
         for layer in self._mesa_property_layers.values():
             setattr(self.cell_klass, layer.name, PropertyDescriptor(layer))
+            self.cell_klass._mesa_properties.add(layer.name)
 
 
 class OrthogonalMooreGrid(Grid[T]):
